@@ -347,6 +347,76 @@ fn native_main(args: &Args, rep: &Report) {
             });
         }
     });
+    // The last queue handle appends and is dropped while the writer is busy elsewhere (held inside
+    // flush() serving a flush request, or inside next()), with the join handle forgotten or merely
+    // still alive: the queue neither overflowed nor was shut down, so the entry must be written.
+    for round in 0..if rep.violation_count() == 0 { 12u32 } else { 0 } {
+        let (boxed, hold_flush, forget) = (round % 2 == 0, round % 4 < 2, round % 3 != 0);
+        let sh = StreamShared::new(round as u64);
+        let b = BackgroundQueueBuilder::new().capacity(64).flush_interval(Duration::from_millis(if round % 5 == 0 { 59_000 } else { 1 }));
+        // op(Some(entry)) appends, op(None) requests a flush without awaiting it
+        #[allow(clippy::type_complexity)]
+        let (op, handle): (Box<dyn Fn(Option<IdEntry>) + Send>, _) = if boxed {
+            let (q, h) = b.build_boxed(sh.stream());
+            (
+                Box::new(move |e| match e {
+                    Some(e) => q.append_any(e),
+                    None => drop(AnyEntrySink::flush_async(&q)),
+                }),
+                h,
+            )
+        } else {
+            let (q, h) = b.build::<IdEntry>(sh.stream());
+            (
+                Box::new(move |e| match e {
+                    Some(e) => q.append(e),
+                    None => drop(q.flush_async()),
+                }),
+                h,
+            )
+        };
+        rep.eval();
+        op(Some(IdEntry::new(7, 0)));
+        op(Some(IdEntry::new(7, 1)));
+        let _ = progress_wait(|| sh.consumed_ids.load(Ordering::SeqCst) == 2, default_stall());
+        if hold_flush {
+            // a flush request makes the writer call stream.flush(), where it is held
+            sh.close_flush_gate(true);
+            op(None);
+            let _ = progress_wait(|| sh.blocked_flush.load(Ordering::SeqCst), Duration::from_secs(5));
+            op(Some(IdEntry::new(7, 2)));
+        } else {
+            sh.set_fuel(Some(0));
+            op(Some(IdEntry::new(7, 2)));
+            let _ = progress_wait(|| sh.blocked_next.load(Ordering::SeqCst), Duration::from_secs(5));
+        }
+        op(Some(IdEntry::new(7, 3)));
+        let q = op;
+        let kept = if forget {
+            handle.forget();
+            None
+        } else {
+            Some(handle)
+        };
+        drop(q); // the last queue handle
+        std::thread::sleep(Duration::from_millis(1));
+        sh.open_all();
+        // (when and whether the stream is closed afterwards is C05's business; here: nothing is lost)
+        let _ = progress_wait(|| sh.consumed_ids.load(Ordering::SeqCst) >= 4 || sh.is_dropped(), default_stall());
+        let closed = sh.is_dropped();
+        let ids: Vec<u64> = sh.log().iter().filter_map(|e| e.id()).collect();
+        let want: Vec<u64> = (0..4).map(|s| make_id(7, s)).collect();
+        if ids != want {
+            rep.violation(
+                "entry-lost",
+                json!({"what": "last queue handle appended and was dropped while the writer was held inside the stream (join handle forgotten or still alive): every entry must be written",
+                       "boxed": boxed, "writer_held_in": if hold_flush { "flush()" } else { "next()" }, "join_handle": if forget { "forgotten" } else { "alive" },
+                       "written": ids.iter().map(|i| id_seq(*i)).collect::<Vec<_>>(), "expected": [0, 1, 2, 3], "stream_closed": closed}),
+            );
+        }
+        rep.count("last_handle_scenarios", 1);
+        drop(kept);
+    }
     // A subscriber installed AFTER a queue was built: from then on a validation failure must be
     // reported through tracing, not in band. (The global subscriber can be set once per process,
     // so this runs once, at the very end, when no other history is in flight.)
